@@ -35,6 +35,7 @@ PROP = {
  "a float argument equal to 2^63": ("C14", "find_first('abc','c', float64(2^63)) searched from the start (toInt's range check v > math.MaxInt is false for 2^63, int(v) wrapped to MinInt64) while uint64 / decimal 2^63 give the conversion error (also C02); found when triaging a sub-agent's remark: C14's extremes harness had excluded floats above 2^53 even when exactly representable"),
  "integer division of decimal operands floors": ("C14", "-7 // 2 was -4 for float64 operands (math.Floor) and -3 for JSON numbers, integers and decimals (truncating QuoRem): the result depended on the Go type carrying the numbers; C14's harness had restricted // to non-negative operands (remark of a sub-agent)"),
  "a unary sign binds tighter": ("C10", "-a // b and -a % b were parsed as -(a // b) and -(a % b) (operand of a unary sign parsed with the additive binding power); reported by C10's unary harness as soon as // floored for every number type (before, only float documents could tell the groupings apart, which two sub-agents had remarked)"),
+ "to_number returns null for strings that are not JSON numbers": ("C02", "to_number('+1'), to_number('.5'), to_number('1.') and to_number('01') were numbers although the texts are not JSON numbers (decimal128's UnmarshalJSON accepts more than the json-number production); reported by H_C02_tonumber once the reference stopped treating such texts as unspecified (remark of a sub-agent)"),
  "multi-select on a null value": ("C01", "`null` | [@, @] was null while `null` | [@] is [null]; a[*].[b] and a[*].{k: b} kept entries for null elements (also C17)"),
 }
 log = subprocess.check_output(['git','-C','/repo','log','--format=%h %s','--reverse']).decode().splitlines()
